@@ -284,6 +284,14 @@ func RunSafety(r sim.Src, mons []*sim.Mon, keepLog bool, sh Shape) *sim.World {
 			if r.Intn("blkfail", 8) == 0 {
 				nd.FailBlock = 1
 			}
+			// transient errors of the node's own signer: building its pre-commit data or its block signature fails once
+			// or twice (the callbacks return an error; the library logs it and tries again at the next occasion)
+			if amev >= 0 && r.Intn("setdatafail", 8) == 0 {
+				nd.FailSetData = 1 + r.Intn("setdatafailn", 2)
+			}
+			if r.Intn("signfail", 10) == 0 {
+				nd.FailSign = 1 + r.Intn("signfailn", 2)
+			}
 		}
 	}
 	if r.Intn("dissenter", 6) == 0 {
